@@ -45,7 +45,13 @@ def gen_events(rng, n, rows, cols):
             else:
                 c, rw = rng.randrange(0, 400), rng.randrange(0, 400)  # outside the window
             ev.append(("mouse", kind, c, rw))
-        elif r < 0.90:
+        elif r < 0.86:
+            # several keys in one write: they are handled in one pass of the event loop, before the next redraw
+            k = rng.randint(1, 6)
+            keys = rng.choice([["F3"] + ["Down"] * k + ["Enter"], ["Down"] * k + ["Enter"], ["Up"] * k + ["Enter"], ["F3", "Down", "Enter", "F3", "Enter"],
+                               ["Tab"] * k, ["-"] * k + ["+"] * k, ["F3"] + ["Down"] * k + ["F1", "Enter"], [rng.choice(KEYNAMES) for _ in range(k)]])
+            ev.append(("burst", ",".join(keys)))
+        elif r < 0.92:
             ev.append(("resize",) + rng.choice(SIZES))
         elif r < 0.97:
             frag = rng.choice([b"\x1b[", b"\x1bO", b"\x1b[<", b"\x1b[<0;", b"\x1b[1;", b"\x1b[200~", b"\x00", b"\xff\xfe", b"\x1b\x1b", bytes(rng.getrandbits(8) for _ in range(rng.randint(1, 12))).replace(b"q", b"x").replace(b"\x03", b"x").replace(b"\x11", b"x")])  # not q, Ctrl-C, Ctrl-Q (= 'q' with a modifier): those are quit requests
@@ -135,6 +141,8 @@ def run_session(col, binpath, rng, tag, scratch, n_events):
                 sess.p.resize(ev[1], ev[2])
             elif ev[0] == "raw":
                 sess.p.write(ev[1])
+            elif ev[0] == "burst":
+                sess.p.write(b"".join(procs.KEYS[k] for k in ev[1].split(",")))
             elif ev[0] == "wait":
                 sess.p.pump(ev[1])
             sess.p.pump(rng.choice([0.02, 0.03, 0.08]))
